@@ -2,17 +2,19 @@ package main
 
 import (
 	"fmt"
+	"go/token"
+	"go/types"
 	"strings"
 
 	"golang.org/x/tools/go/ssa"
 )
 
 var serveExplain = map[string]string{
-	"C02": "Structural necessary conditions in the server's per-connection loop, decided for every path of the loop by exhaustive exploration of a finite abstraction (booleans, nil-ness, rule event bits): (R1) a request with 'Expect: 100-continue' whose body was not read (ExpectHandler / ContinueHandler rejection) is answered with Connection: close and never followed by another iteration; (R2) on every path from the handler to the next iteration the code has established, on the request that was actually served (not on a ctx swapped in by the timeout path), that there is no connection-backed body stream or that requestStream.fullyRead() is true - otherwise the close decision is true; the stream object is only released after that. (R3) a length-limited reader over the connection that is handed to a parser which may stop early (multipart pre-parse) is drained before success is reported. Not decided: the exact byte offset at which the next request starts for all inputs.",
+	"C02": "Structural necessary conditions in the server's per-connection loop, decided for every path of the loop by exhaustive exploration of a finite abstraction (booleans, nil-ness, rule event bits): (R1) a request with 'Expect: 100-continue' whose body was not read (ExpectHandler / ContinueHandler rejection) is answered with Connection: close and never followed by another iteration; (R2) on every path from the handler to the next iteration the code has established, on the request that was actually served (not on a ctx swapped in by the timeout path), that there is no connection-backed body stream or that requestStream.fullyRead() is true - otherwise the close decision is true; the stream object is only released after that. (R3) a length-limited reader over the connection that is handed to a parser which may stop early (multipart pre-parse) is drained before success is reported; (R4) the flag behind fullyRead() for chunked bodies is raised only after the trailer section was read and its error examined, in every function that sets it. Not decided: the exact byte offset at which the next request starts for all inputs.",
 	"C10": "Structural necessary conditions of the keep-alive decision in the serve loop: (R1) the condition guarding SetConnectionClose depends (through phis, && / ||, and helper functions) on each documented source: DisableKeepalive, request and response Connection: close, MaxRequestsPerConn, CloseOnShutdown+stop, Expect/Continue rejection, unread streamed body; (R2) on every path: decision true => Connection: close is set on the response object that is written and no further iteration follows; decision false on a non-HTTP/1.1 request => Connection: keep-alive is set; (R3) the decision does not read per-request bookkeeping from a ctx that was swapped in after the handler (timeout path). Not decided: token/case handling of the Connection header value, client side reuse.",
 	"C11": "Structural necessary conditions of 'no state leaks between requests': (E7) every leaf field of Request, Response, RequestHeader, ResponseHeader, URI, Args, Cookie and RequestCtx is assigned (or known nil, or reset through its pointee) on every path of the type's reset method including callees, or is in a table of reasoned exemptions (scratch buffers, configuration, self pointers) - a newly added field is a violation until reset or exempted; (R-loop) every variable of the serve loop that survives an iteration is re-assigned before it is read in a later iteration on every path, or the loop provably ends; (R-reset) every path from the handler to the next iteration passes Request.Reset and Response.Reset. Not decided: that getters return exactly what the current request sent.",
 	"C14": "The sequence of ConnState values the serve loop reports, decided on every path of the loop as an automaton: StateActive only follows New/Idle, StateIdle only follows Active, the handler and the response write happen in Active, an iteration that continues ends in Idle, and StateActive is only reported on a path on which a read of at least one byte succeeded. Not decided: the New/Closed/Hijacked reports of the callers (worker pool, ServeConn) and cross-goroutine ordering.",
-	"C15": "Structural necessary conditions of graceful shutdown inside the serve loop, on every path: the per-connection idle marker is zero while the handler runs (so Shutdown's idle closer cannot close a busy connection), it is set non-zero after the response before the connection waits for the next request, and the stop flag is tested after every response. Not decided: Shutdown's own listener/poll loop, liveness, interleavings.",
+	"C15": "Structural necessary conditions of graceful shutdown inside the serve loop, on every path: the per-connection idle marker is zero while the handler runs (so Shutdown's idle closer cannot close a busy connection), it is set non-zero after the response before the connection waits for the next request, the stop flag is tested after every response, and (R5) a response that was written into the connection writer is flushed before the writer is dropped whenever the serve function ends with a nil result (shutdown, client stopped sending) - so no answered request loses its response on a graceful end. Not decided: Shutdown's own listener/poll loop, liveness, interleavings.",
 	"C16": "Structural necessary conditions for timed-out handlers, on every path of the serve loop's timeoutResponse != nil branch: the response is written from a freshly acquired ctx into which the stored response was copied (R1); the timed-out ctx is never released to the pool by the loop (R2); no per-request field the loop stored on the old ctx is read from the fresh one (R3). Not decided: what the late handler does with the old ctx, scheduling.",
 	"C17": "Structural necessary conditions of connection hijacking, on every path: the response is written and flushed before the hand-off unless HijackSetNoResponse is in effect (R1); after 'go hijackConnHandler' the serve function performs no I/O on the connection and releases neither ctx nor the handed-over reader (R3); it returns errHijacked exactly on hand-off paths (R4); hijackConnHandler closes the connection after the user's handler unless KeepHijackedConns and releases the ctx (R5). Not decided: byte-exact hand-over of buffered data, callers' reaction to errHijacked.",
 }
@@ -33,6 +35,7 @@ func init() {
 			}
 			if id == "C02" {
 				limitedReaderDrainRule(p, r)
+				streamConsumedRule(p, r)
 			}
 		}})
 	}
@@ -362,4 +365,115 @@ func limitedReaderDrainRule(p *Prog, r *Report) {
 		})
 	}
 	r.Floor("R3", "length-limited readers over a caller's reader handed to a parser on the request-body path", n, 1)
+}
+
+// C02.R4: the serve loop keeps a connection after a streamed chunked body only
+// when requestStream.fullyRead() says so, and for chunked bodies fullyRead()
+// is a flag. The flag may therefore only be raised once the whole framed body -
+// including the trailer section that follows the last chunk - has been taken
+// off the connection: every store of true to a bool field that fullyRead
+// consults is preceded, on every path, by the trailer reader, and the
+// trailer reader's error is examined between the call and the store.
+func streamConsumedRule(p *Prog, r *Report) {
+	fr := p.Func("(*requestStream).fullyRead")
+	if fr == nil {
+		r.Undecided("R4", "(*requestStream).fullyRead", "not found")
+		return
+	}
+	flags := map[*types.Var]bool{}
+	for _, b := range fr.Blocks {
+		for _, in := range b.Instrs {
+			if u, ok := in.(*ssa.UnOp); ok && u.Op == token.MUL {
+				if base, fv := fieldOfAddr(u.X); fv != nil && typeNameOf(base) == "requestStream" && isBool(fv.Type()) {
+					flags[fv] = true
+				}
+			}
+		}
+	}
+	r.Floor("R4", "bool fields of requestStream that fullyRead consults", len(flags), 1)
+	isTrailerRead := func(i ssa.Instruction) bool {
+		c, ok := i.(ssa.CallInstruction)
+		if !ok {
+			return false
+		}
+		if c.Common().IsInvoke() {
+			return c.Common().Method.Name() == "ReadTrailer"
+		}
+		f := c.Common().StaticCallee()
+		return f != nil && f.Name() == "ReadTrailer"
+	}
+	n := 0
+	for _, fn := range p.SrcFuncs() {
+		for _, b := range fn.Blocks {
+			for _, in := range b.Instrs {
+				st, ok := in.(*ssa.Store)
+				if !ok {
+					continue
+				}
+				base, fv := fieldOfAddr(st.Addr)
+				if fv == nil || !flags[fv] || typeNameOf(base) != "requestStream" {
+					continue
+				}
+				if c, isC := st.Val.(*ssa.Const); !isC || c.Value == nil || c.Value.ExactString() != "true" {
+					continue
+				}
+				n++
+				isStore := func(i ssa.Instruction) bool { return i == ssa.Instruction(st) }
+				hit, path := reachAvoiding(fn, nil, isStore, isTrailerRead, nil)
+				r.Check("R4", fmt.Sprintf("%s: %s is raised only after the trailer section was read", funcName(fn), fv.Name()), hit == nil, p.Pos(st.Pos()),
+					"the flag fullyRead() reports is set on a path that has not called ReadTrailer yet: if the trailer section then fails to parse, the stream counts as consumed, the connection is kept and the unread trailer bytes are parsed as the next request", blocksString(p, path)...)
+				// the error of the trailer reader is looked at before the flag is raised
+				tested := true
+				for _, bb := range fn.Blocks {
+					for _, i2 := range bb.Instrs {
+						if !isTrailerRead(i2) {
+							continue
+						}
+						cv, isV := i2.(ssa.Value)
+						if !isV {
+							continue
+						}
+						examines := func(i ssa.Instruction) bool {
+							iff, ok := i.(*ssa.If)
+							if !ok {
+								return false
+							}
+							dep := false
+							var walk func(v ssa.Value, d int)
+							walk = func(v ssa.Value, d int) {
+								if d > 6 || dep {
+									return
+								}
+								if v == cv {
+									dep = true
+									return
+								}
+								switch w := v.(type) {
+								case *ssa.BinOp:
+									walk(w.X, d+1)
+									walk(w.Y, d+1)
+								case *ssa.UnOp:
+									walk(w.X, d+1)
+								case *ssa.Phi:
+									for _, e := range w.Edges {
+										walk(e, d+1)
+									}
+								case *ssa.Extract:
+									walk(w.Tuple, d+1)
+								}
+							}
+							walk(iff.Cond, 0)
+							return dep
+						}
+						if h2, _ := reachAvoiding(fn, i2, isStore, examines, nil); h2 != nil {
+							tested = false
+						}
+					}
+				}
+				r.Check("R4", fmt.Sprintf("%s: the trailer reader's error is examined before %s is raised", funcName(fn), fv.Name()), tested, p.Pos(st.Pos()),
+					"a path from ReadTrailer to the store does not branch on its error")
+			}
+		}
+	}
+	r.Floor("R4", "stores raising a consumption flag of requestStream", n, 1)
 }
